@@ -9,7 +9,7 @@ from vf.fixtures import CompA, CompB, CompC, CompF, check, sized_lists, wone_of
 PROPERTY = "C03"
 BUDGET = {"quick": 1600, "thorough": 5000}
 RULE = ("2-3 models alive at once, each with its own environment kind (plain, SpaceWorld, DiscreteWorld, LineWorld, GridWorld), "
-        "a pool of 5 agents per model (incl. agents with no components) and 3 identity-equality component types. Histories "
+        "a pool of 5 agents per model (incl. agents with no components) and 4 identity-equality component types (one with falsy instances, one deriving from PositionComponent). Histories "
         "(1-45 ops) of attach/detach in ANY residency state (before joining, while resident - with or without the explicit "
         "register/deregister call -, after leaving), join (with in-range position, occasionally into ANOTHER model's "
         "environment), leave, re-join. After EVERY op, for EVERY model and type the listing (model.systems[T], "
@@ -22,7 +22,11 @@ RULE = ("2-3 models alive at once, each with its own environment kind (plain, Sp
 ASSUMPTIONS = ["an agent is resident in at most one environment at a time", "explicit (de)registration is only generated for "
                "components of resident agents", "the world-managed PositionComponent is not part of the claim"]
 
-TYPES = [CompA, CompB, CompF]     # CompF instances are falsy
+class CompP(PositionComponent):
+    """a USER component type that merely derives from the world-managed PositionComponent (e.g. a velocity vector)"""
+
+
+TYPES = [CompA, CompB, CompF, CompP]     # CompF instances are falsy; CompP derives from PositionComponent
 KINDS = ["plain", "space", "discrete", "line", "grid"]
 LIVE = set()
 
@@ -140,7 +144,7 @@ def run_case(case):
         mi0, ai0 = idx // 5, idx % 5
         if mi0 >= nm:
             break
-        for ti in range(3):
+        for ti in range(len(TYPES)):
             if int(spec.get("comps", 0)) >> ti & 1:
                 prologue.append({"op": "attach", "m": mi0, "a": ai0, "t": ti, "paired": True})
         if spec.get("joined"):
@@ -171,7 +175,7 @@ def run_case(case):
         res_in = where_is.get(id(a))
         where = f"after op {k} {op}"
         if kind == "attach":
-            t = TYPES[int(op["t"]) % 3]
+            t = TYPES[int(op["t"]) % len(TYPES)]
             if (id(a), t) in comp_of:
                 continue
             comp = t(a, a.model)
@@ -197,7 +201,7 @@ def run_case(case):
                 if id(a) in has_left:
                     changed_outside.add(id(a))
         elif kind == "detach":
-            t = TYPES[int(op["t"]) % 3]
+            t = TYPES[int(op["t"]) % len(TYPES)]
             if (id(a), t) not in comp_of:
                 continue
             comp = comp_of.pop((id(a), t))
@@ -270,7 +274,7 @@ def run_case(case):
 
 
 def strategy(tier):
-    m, a, t = st.integers(0, 2), wone_of(st.integers(0, 1), st.integers(0, 4)), wone_of(st.just(0), st.integers(0, 2))
+    m, a, t = st.integers(0, 2), wone_of(st.integers(0, 1), st.integers(0, 4)), wone_of(st.just(0), st.integers(0, 3))
     paired = st.sampled_from([True, True, False])
     k = st.integers(0, 14)
     pos = st.tuples(st.integers(0, 9), st.integers(0, 9), st.integers(0, 9)).map(list)
@@ -286,7 +290,7 @@ def strategy(tier):
         st.fixed_dictionaries({"op": st.just("leave"), "k": k}),
         st.fixed_dictionaries({"op": st.just("leave"), "k": k}),
     )
-    init = st.fixed_dictionaries({"comps": st.sampled_from([0, 0, 1, 1, 1, 2, 3, 4, 5, 7]), "joined": st.booleans(), "pos": pos})
+    init = st.fixed_dictionaries({"comps": st.sampled_from([0, 0, 1, 1, 1, 2, 3, 4, 5, 7, 8, 9, 12, 15]), "joined": st.booleans(), "pos": pos})
     return st.fixed_dictionaries({"models": st.lists(st.integers(0, 4), min_size=2, max_size=3),
                                   "init": wone_of(st.just([]), st.lists(init, min_size=15, max_size=15)),
                                   "ops": wone_of(st.lists(ops, min_size=1, max_size=12), sized_lists(ops, 8, 45), sized_lists(ops, 8, 45))})
